@@ -39,6 +39,8 @@ pub enum Out {
     Ok,
     Err(u8),
     Panic,
+    /// panics synchronously inside `Service::call` (the other outcomes are produced by the future)
+    PanicInCall,
 }
 
 #[derive(Clone, Copy, Debug, PartialEq, Eq)]
@@ -586,6 +588,11 @@ impl tower::Service<Req> for Probe {
             (attempt, step)
         };
         let mut guard = ExitGuard { w: w.clone(), req: req.id, attempt, serial, group: self.group, key: req.key, how: None };
+        if step.out == Out::PanicInCall {
+            guard.how = Some(How::Panicked);
+            drop(guard);
+            panic!("probe: scripted panic inside call() (req {} attempt {})", req.id, attempt);
+        }
         Box::pin(async move {
             match step.lat {
                 Lat::Us(0) => {}
@@ -604,7 +611,7 @@ impl tower::Service<Req> for Probe {
                     drop(guard);
                     Err(PErr { serial, req_id: req.id, class: c })
                 }
-                Out::Panic => {
+                Out::Panic | Out::PanicInCall => {
                     guard.how = Some(How::Panicked);
                     drop(guard);
                     panic!("probe: scripted panic (req {} attempt {})", req.id, attempt)
